@@ -419,6 +419,7 @@ struct Scenario {
             for (auto &x : got) { if (x != lo4 && x != lo6 && !listed.count(x)) fail(r, "C13.loopback-address-invented", ctx + ": " + x); if (got.count(x) > 1) { fail(r, "C13.loopback-address-duplicated", ctx + ": " + x + " returned " + std::to_string(got.count(x)) + " times"); break; } }
             r.counters["c13.loopback_results_checked"]++;
           }
+          if (!in_hosts && !literal && !lh) fail(r, "C13.addresses-from-nowhere", ctx + ": " + std::to_string(q.addrs.size()) + " addresses returned although no answer was accepted, the name is not in the hosts file, is not a literal and is not a loopback name");
           if (in_hosts && !literal && !lh) {
             // c-ares documents that related hosts-file lines (sharing a name or an address) are merged into one entry:
             // lower bound = addresses on lines naming the host, upper bound = addresses of the merged (transitively related) lines
